@@ -416,6 +416,34 @@ func TestC14Respacing(t *testing.T) {
 			run.Pending("respace", "c14-respace", [2]string{mkTextCase(a, "").Text, mkTextCase(b, "").Text}, msg)
 			rt.Fatalf("%s", msg)
 		}
+		// the converse: the one place where a line break is significant. Put one before a '.', '!.' or call '('
+		// of the same token sequence: the result must be what the grammar's same-line rule says (normally a rejection)
+		var idxs []int
+		for i, tk := range toks {
+			if tk.NoNLBefore {
+				idxs = append(idxs, i)
+			}
+		}
+		if len(idxs) > 0 {
+			at := idxs[rapid.IntRange(0, len(idxs)-1).Draw(rt, "nlat")]
+			s3 := append([]string{}, s2...)
+			s3[at] = rapid.SampledFrom([]string{"\n", " \n", "\r", "\r\n", "\u2028", "\u2029 ", "\u0085"}).Draw(rt, "nlkind")
+			var sb strings.Builder
+			for i, tk := range toks {
+				sep := s3[i]
+				if sep == "" && i > 0 {
+					sep = " "
+				}
+				sb.WriteString(sep)
+				sb.WriteString(tk.Text)
+			}
+			c := sb.String()
+			run.Class("converse-line-break")
+			if m := checkGrammar(c, ""); m != "" {
+				run.Pending("converse", "c02", mkTextCase(c, ""), "line break before a member access / call: "+m)
+				rt.Fatalf("%s", m)
+			}
+		}
 	})
 }
 
@@ -543,4 +571,13 @@ func FuzzC14ScanTiles(f *testing.F) {
 			t.Fatalf("%s", msg)
 		}
 	})
+}
+
+// TestC14LineBreakSignificance: the only significant white space - a line break
+// before '.', '!.' or a call's '(' - over all short postfix chains.
+func TestC14LineBreakSignificance(t *testing.T) {
+	run := h.Begin("C14", "line-break-significance", "bounded-exhaustive: primary {a, f(x), (a), [a], 1} followed by every chain of 1..4 postfix operations over {.b, !.b, (), (c)}, with one of six line-break forms (or a plain space) before one chosen postfix token, alone and inside 'x + _' / '[_]'; oracle: with spaces the chain parses as written, with a line break before '.', '!.' or a call's '(' it must be what the reference grammar says (a rejection); non-trivial: the cases that contain a line break")
+	defer run.End(t)
+	sameLineSweep(run, "c14")
+	run.Exhaustive()
 }
